@@ -56,6 +56,18 @@ CHECKS = {
         'note': 'interpreted execution of the kernel source; membership tolerance of 4 ulps at stripe boundaries unless '
                 'BoxSize/npartition is a power of two',
     },
+    'C06': {
+        'engine': 'E1-threads',
+        'technique': 'deterministic simulation of the threaded TSC deposit under seeded schedules plus single-thread '
+                     'compiled runs, against an independent float64 B-spline reference',
+        'text': 'every simulated schedule of tsc_parallel and the compiled single-thread tsc_parallel / cic_serial are '
+                'compared cell by cell with an independent float64 reference (rounding bound calibrated at 10x the '
+                'largest observed error); inputs are sampled with a bias to cell centres, half-cell edges, 0, the '
+                'largest float below BoxSize, BoxSize and out-of-range positions under wrap. cic_serial has no seam: '
+                'for it the simulator contributes nothing beyond input generation (said in DESIGN.md).',
+        'design_ref': 'DESIGN.md 4 (C06)',
+        'note': 'reference convention: cell i centred at i*h, periodic; tolerance 6*eps*(n+2)*touching weight per cell',
+    },
 }
 
 NOT_APPLICABLE = {
@@ -66,5 +78,5 @@ NOT_APPLICABLE = {
            'no chunking, interleaving or fault for a simulator to vary',
     'C18': 'pure function on a finite domain of 65340 codes: complete enumeration, which is not simulation',
 }
-for _p in ('C01', 'C02', 'C03', 'C05', 'C06', 'C08', 'C09', 'C10', 'C11', 'C12', 'C13', 'C16', 'C19', 'C20'):
+for _p in ('C01', 'C02', 'C03', 'C05', 'C08', 'C09', 'C10', 'C11', 'C12', 'C13', 'C16', 'C19', 'C20'):
     NOT_APPLICABLE.setdefault(_p, PENDING)
